@@ -21,6 +21,10 @@ CONSTANTS
   DevIdleSweep = FALSE
   DevFwdNoEof = FALSE
   SrcKinds = {"direct"}
+  ErrClasses = {"plain"}
+  PollOn = FALSE
+  RetryOn = {}
+  RetryWriteOn = {}
   DevBufio = FALSE
   AttachKinds = {"pkt"}
   HoldOn = TRUE
